@@ -115,6 +115,7 @@ impl<'a> Deserializer<ReadRefReader<'a>> {
 impl<R> Deserializer<R> {
 	pub fn set_max_depth(&mut self, d: usize) {
 		self.depth = Some(d);
+		unsafe { ghost::DEPTH_SEEN = d };
 	}
 }
 
